@@ -43,6 +43,7 @@ func cmdConc(args []string) {
 	out := fs.String("out", "conc.ndjson", "output")
 	statsOut := fs.String("stats", "", "stats")
 	par := fs.Int("par", 4, "parallel histories")
+	gated := fs.Bool("gated", false, "deterministic gated schedules instead of perturbed ones")
 	fs.Parse(args)
 
 	type result struct {
@@ -64,7 +65,11 @@ func cmdConc(args []string) {
 				bs := strings.Split(*backends, ",")
 				be = bs[i%len(bs)]
 			}
-			results[i].lines, results[i].stats = runConc(tseed, be, *maxG, *opsPer)
+			if *gated {
+				results[i].lines, results[i].stats = runGated(tseed, be)
+			} else {
+				results[i].lines, results[i].stats = runConc(tseed, be, *maxG, *opsPer)
+			}
 		}(i)
 	}
 	wg.Wait()
@@ -216,7 +221,11 @@ func runConc(seed int64, be string, maxG, opsPer int) ([][]byte, map[string]int)
 	in.hook = nil
 	audit := x.Audit(b)
 
-	// the log: call and return events in ticket order
+	return concLines(evs, audit, seed, be, G)
+}
+
+// concLines renders a history: call and return events in ticket order
+func concLines(evs []concEvent, audit E, seed int64, be string, G int) ([][]byte, map[string]int) {
 	type item struct {
 		t    int64
 		call bool
@@ -250,6 +259,64 @@ func runConc(seed int64, be string, maxG, opsPer int) ([][]byte, map[string]int)
 	lines = append(lines, marshalLine(E{"t": "audit", "op": "FinalAudit", "audit": audit}))
 	stats[fmt.Sprintf("goroutines=%d", G)]++
 	return lines, stats
+}
+
+// runGated is a deterministic schedule: one bulk update holds its transaction open (gate in its
+// first callback) while a point update moves another document into its selection and a reader that
+// starts afterwards observes the collection; then the bulk update is released.  Under snapshot
+// isolation with invisible index phantoms this is the shape that is serializable but not
+// linearizable.
+func runGated(seed int64, be string) ([][]byte, map[string]int) {
+	p := &Profile{Name: "conc", NumTable: "general", TimeTable: "general", Colls: 1, MaxDocs: 6, Indexes: true, W: weights(nil), NoGenIds: true}
+	g := NewGen(seed, p)
+	c := g.colls[0]
+	dir, err := os.MkdirTemp(scratchBase(), "verif-gated-")
+	if err != nil {
+		panic(err)
+	}
+	defer os.RemoveAll(dir)
+	b, err := NewBackend(be, dir, nil)
+	if err != nil {
+		panic(err)
+	}
+	defer b.Destroy()
+	gt := &gate{started: make(chan struct{}), release: make(chan struct{})}
+	x := &Exec{U: g.U, FileDir: dir, Backends: []*Backend{b}, Gate: gt}
+	var ticket int64
+	var mu sync.Mutex
+	var evs []concEvent
+	do := func(gi int, e E) {
+		t1 := atomic.AddInt64(&ticket, 1)
+		res := x.Run(b, e, nil)
+		t2 := atomic.AddInt64(&ticket, 1)
+		mu.Lock()
+		evs = append(evs, concEvent{g: gi, e: e, call: t1, ret: t2, res: res})
+		mu.Unlock()
+	}
+	va, vb, vc := ANum(g.smallN[1], "i"), ANum(g.smallN[2], "i"), ANum(g.smallN[3], "i")
+	do(0, E{"op": "CreateCollection", "c": c})
+	if seed%3 != 0 {
+		do(0, E{"op": "CreateIndex", "c": c, "f": B("x")})
+	}
+	// the moved document's old value is not adjacent to the scanned value (a scan reads one entry past its range)
+	docs := []interface{}{AObj("_id", AStr(g.ids[0]), "x", va), AObj("_id", AStr(g.ids[1]), "x", vc), AObj("_id", AStr(g.ids[2]), "x", vb)}
+	do(0, E{"op": "Insert", "c": c, "docs": docs})
+	where := []interface{}{[]interface{}{"where", []interface{}{"un", "eq", B("x"), []interface{}{"lit", va}}}}
+	done := make(chan struct{})
+	go func() {
+		do(1, E{"op": "UpdateFunc", "c": c, "q": where, "upd": []interface{}{"set", B("y"), va}, "gate": 1})
+		close(done)
+	}()
+	select {
+	case <-gt.started:
+		do(2, E{"op": "UpdateById", "c": c, "id": B(g.ids[1]), "upd": []interface{}{"set", B("x"), va}})
+		do(3, E{"op": "FindAll", "c": c, "q": where})
+		close(gt.release)
+	case <-done: // the selection was empty: nothing was gated
+	}
+	<-done
+	audit := x.Audit(b)
+	return concLines(evs, audit, seed, be, 3)
 }
 
 func isConflict(err error) bool { return errors.Is(err, badgerdb.ErrConflict) }
